@@ -190,7 +190,7 @@ func (c *Config) handleSvcConfigUpdate(svcName string, newCfg *service.Config) {
 	case nil:
 		c.emitSvcAddEvent(sw)
 	default:
-		c.emitSvcConfigEvent(svcName, newCfg)
+		c.emitSvcConfigEvent(sw)
 	}
 }
 
@@ -264,10 +264,11 @@ func (c *Config) emitSvcRemoveEvent(sw *serviceWrapper) {
 	c.evtCh <- evt
 }
 
-func (c *Config) emitSvcConfigEvent(svcName string, newCfg *service.Config) {
+func (c *Config) emitSvcConfigEvent(sw *serviceWrapper) {
 	evt := &SvcConfigEvent{
-		Name:   svcName,
-		Config: newCfg,
+		Name:      sw.Service.Name,
+		Config:    sw.Config,
+		Endpoints: append([]*service.Endpoint(nil), sw.Endpoints...),
 	}
 	c.evtCh <- evt
 }
